@@ -12,7 +12,27 @@ bool log_is_enabled(enum log_type type) { return false; }
 void log_console_conf(bool enabled) { }
 
 void *ut_malloc(size_t size) { void *p = malloc(size); __CPROVER_assume(p != NULL); return p; }
-void *ut_realloc(void *ptr, size_t size) { void *p = realloc(ptr, size); __CPROVER_assume(p != NULL); return p; }
+/* ut_realloc: TRUSTED over-approximation of realloc(3).  CBMC's own model copies the whole old block
+ * (__CPROVER_array_copy), which for the 64 KiB frame buffers accounted for 3/4 of the formula (2.9M -> 0.7M variables).
+ * This model returns a block whose content is ARBITRARY except at offsets 0..3 and at the ghost offset xv_keep (any
+ * value, never assigned), where the old bytes are preserved.  Real realloc preserves every byte below min(old,new), so
+ * every behaviour of realloc is a behaviour of this model: what is proved against it holds for realloc. */
+void *ut_realloc(void *ptr, size_t size)
+{
+    uint8_t *p = malloc(size);
+    __CPROVER_assume(p != NULL);
+    if (ptr != NULL) {
+        size_t old = __CPROVER_OBJECT_SIZE(ptr);
+        const uint8_t *o = ptr;
+        if (0 < old && 0 < size) p[0] = o[0];
+        if (1 < old && 1 < size) p[1] = o[1];
+        if (2 < old && 2 < size) p[2] = o[2];
+        if (3 < old && 3 < size) p[3] = o[3];
+        if (xv_keep < old && xv_keep < size) p[xv_keep] = o[xv_keep];
+        free(ptr);
+    }
+    return p;
+}
 void *ut_calloc(size_t size) { void *p = malloc(size); __CPROVER_assume(p != NULL); memset(p, 0, size); return p; }
 void ut_free(void *ptr) { free(ptr); }
 void ut_fatal(void) { abort(); }
